@@ -128,6 +128,7 @@ def family_texts(rnd, tier):
         sizes.update(range(56, 120))
         sizes.update(range(161, 301))
         sizes.update(range(500, 530))
+        sizes.update((65534, 65535, 65536))       # the unsigned short count of safe_str (n = 65535) and its neighbours
     pop = [32] * 6 + [9, 10] + list(range(33, 127)) * 2 + [1, 31, 127, 128, 200, 233, 255]
     for L in sorted(sizes):
         t = [rnd.choice(pop) for _ in range(L)]
@@ -135,7 +136,7 @@ def family_texts(rnd, tier):
             t[0] = 32
         if L % 4 == 0:
             t[-1] = 9
-        fam.append((t, tuple(range(8)), "size-sweep"))
+        fam.append((t, tuple(range(8)) if L < 60000 else (0, 3), "size-sweep"))
     # (3) every byte value 1..255 as first, inner and last byte
     for b in range(1, 256):
         fam.append(([b, 97, 32, b, 32, 98, b], (0, b % 8), "byte-values"))
@@ -157,20 +158,53 @@ def family_copies():
     return out
 
 
+INT_MAX, INT_MIN = 2 ** 31 - 1, -2 ** 31
+# extreme values of a 32-bit integer parameter (round-4 class 1): both ends, their neighbourhoods, the 2^15 / 2^16 / 2^30 thresholds
+EXTREME32 = (INT_MAX, INT_MAX - 1, INT_MAX - 7, 2 ** 30, 65537, 65536, 65535, 32768, 32767,
+             INT_MIN, INT_MIN + 1, INT_MIN + 7, -2 ** 30, -65535, -65536, -65537, -32768)
+
+
+def family_extremes():
+    """every integer parameter at its extreme values, crossed with small NON-ZERO values of the other integer parameters and a few
+    object sizes"""
+    out = []
+    for n in (3, 16, 300):
+        s = [48 + (i % 75) for i in range(n)]
+        small_idx = sorted({1, 2, -1, -2, n - 1, -(n - 1), 0, n // 2})
+        small_cnt = sorted({1, 2, -1, -2, 0, n, n - 1})
+        for idx in small_idx:
+            for cnt in EXTREME32:
+                out.append({"k": "substr", "s": s, "idx": idx, "cnt": cnt})
+        for idx in EXTREME32:
+            for cnt in small_cnt:
+                out.append({"k": "substr", "s": s, "idx": idx, "cnt": cnt})
+            out.append({"k": "substr", "s": s, "idx": idx, "cnt": idx})
+            out.append({"k": "substr", "s": s, "idx": idx, "cnt": -idx if idx != INT_MIN else INT_MAX})
+    # declared destination sizes far beyond what is written (the reference's class "roomy")
+    for size in [e for e in EXTREME32 if e > 0]:
+        for sl in (0, 1, 5, 40):
+            for pl in (0, 1, 7):
+                out.append({"k": "roomy", "size": size, "src": [97 + (i % 26) for i in range(sl)], "pre": [65 + (i % 26) for i in range(pl)]})
+    return out
+
+
 def families(ctx, exe):
     import json, os, random
     rnd = random.Random(ctx.seed)
     texts = family_texts(rnd, ctx.tier)
-    rows = [{"k": "inplace", "s": t} for t, _, _ in texts] + family_copies()
+    rows = [{"k": "inplace", "s": t} for t, _, _ in texts] + family_copies() + family_extremes()
     path = os.path.join(ctx.rundir, "cases.ndjson")
     with open(path, "w") as f:
         for r in rows:
             f.write(json.dumps(r, separators=(",", ":")) + "\n")
     cs = x_c12.CaseStream(ctx, exe, [], keyfn, "families")
-    count = {"EvalFileInPlace": 0, "EvalFileCopy": 0, "EvalFileSubstr": 0}
+    count = {"EvalFileInPlace": 0, "EvalFileCopy": 0, "EvalFileRoomy": 0, "EvalFileSubstr": 0}
+    extreme = [0]
     famcount = {}
 
     def on_case(r):
+        if cs.env is None:
+            cs.env = x_c12.levels_env(r["lv"])
         i = r["args"][0]
         e = r["exp"]
         row = rows[i - 1]
@@ -196,10 +230,24 @@ def families(ctx, exe):
             cls = "size-sweep,size=%d" % size
             cs.add(x_c12.Case(i, [("strncpy", [str(size), tok(src), tok(b0)], tok({"buf": e["cpy"]["result"], "ret": e["cpy"]["ret"]}), cls),
                                   ("strncat", [str(size), tok(src), tok(b0)], cat_exp, cls)], {"family": "size-sweep"}))
+        elif r["op"] == "roomy":
+            count["EvalFileRoomy"] += 1
+            extreme[0] += 1
+            size, src, b0 = row["size"], row["src"], e["buf0"]
+            cls = "extreme-size,size>=2^%d" % (size.bit_length() - 1)
+            cs.add(x_c12.Case(i, [("strncpy_roomy", [str(size), tok(src), tok(b0)], tok({"buf": e["cpy"]["result"], "ret": e["cpy"]["ret"]}), cls),
+                                  ("strncat_roomy", [str(size), tok(src), tok(b0)], tok({"buf": e["cat"]["result"], "ret": e["cat"]["ret"]}), cls)],
+                              {"family": "extreme-values"}))
         else:
             count["EvalFileSubstr"] += 1
-            cs.add(x_c12.Case(i, [("substr", [tok(row["s"]), str(row["idx"]), str(row["cnt"])], tok(e["result"]) if e["ok"] else "-",
-                                   "size-sweep,len=%d" % len(row["s"]))], {"family": "size-sweep"}))
+            big = max(abs(row["idx"]), abs(row["cnt"])) >= 32767
+            extreme[0] += big
+            cls = ("extreme-values,%s%s" % ("idx-extreme," if abs(row["idx"]) >= 32767 else ("idx=0," if row["idx"] == 0 else "idx-small,"),
+                                             "cnt-extreme" if abs(row["cnt"]) >= 32767 else "cnt-small")) if big else "size-sweep,len=%d" % len(row["s"])
+            if big and len(ctx.cov["samples"]) < 11 and row["idx"] == 1 and row["cnt"] in (INT_MAX, INT_MIN) and len(row["s"]) == 16:
+                ctx.sample({"family": "extreme-values", "op": "substr", "len": 16, "idx": row["idx"], "cnt": row["cnt"], "expected": e})
+            cs.add(x_c12.Case(i, [("substr", [tok(row["s"]), str(row["idx"]), str(row["cnt"])], tok(e["result"]) if e["ok"] else "-", cls)],
+                              {"family": "extreme-values" if big else "size-sweep"}))
     try:
         res = x_c12.tlc_cases(ctx, "StrHelpersFile.tla", "StrHelpersFile.cfg", list(count), on_case, coverage=False,
                               taken=lambda: count, env={"CASES": path})
@@ -207,7 +255,8 @@ def families(ctx, exe):
         tot = cs.close()
     if res.ok and (tot["scripts"] != len(rows) or res.edges != len(rows)):
         raise Broken("families: %d rows, %d evaluated by TLC, %d replayed" % (len(rows), res.edges, tot["scripts"]))
-    ctx.cov["families"] = {"texts_by_family": famcount, "copy_and_substr_size_sweep": count["EvalFileCopy"] + count["EvalFileSubstr"],
+    ctx.cov["families"] = {"texts_by_family": famcount, "copy_and_substr_size_sweep": count["EvalFileCopy"] + count["EvalFileSubstr"] + count["EvalFileRoomy"] - extreme[0],
+                           "extreme_integer_argument_cases": extreme[0],
                            "ordered_byte_pairs_covered_at_each_offset_mod_8": 255 * 255,
                            "note": "every in-place call is preceded by the same call at the same address on different content of the same "
                                    "length with errno = ERANGE (purity); texts run at the listed start alignments"}
@@ -222,6 +271,9 @@ def run(ctx):
     cs = x_c12.CaseStream(ctx, exe, [], keyfn, "cases")
 
     def on_case(r):
+        if cs.env is None:
+            cs.env = x_c12.levels_env(r["lv"])         # the specification's DebugLevels: every case runs at each of them
+            ctx.cov["debug_levels"] = list(r["lv"])
         n[0] += 1
         cs.add(mk_case(n[0], r))
         a = r["args"]
